@@ -12,6 +12,7 @@ mod c10;
 mod c11;
 mod c13;
 mod c15;
+mod c18;
 mod dump;
 mod exec;
 mod model;
@@ -83,6 +84,7 @@ fn main() {
         "c11" => c11::run(&a),
         "c13" => c13::run(&a),
         "c15" => c15::run(&a),
+        "c18" => c18::run(&a),
         "exec" => exec::run(&a),
         "battery" => battery::run(&a),
         other => {
